@@ -252,6 +252,15 @@ class C19Run(qsrun.QsRun):
                     raise Violation("S-fields", f"{what}: {k_out} is {out.get(k_out)!r}, the worker reported {res.get(k_res)!r}")
             if out.get("suggested_filename", "") != res.get("suggested_filename", ""):
                 raise Violation("S-fields", f"{what}: suggested_filename {out.get('suggested_filename')!r} != {res.get('suggested_filename')!r}")
+        else:
+            # finished without a result: there is no document of THIS job to point at
+            for k_out in ("url", "content_length"):
+                if out.get(k_out) is not None:
+                    raise Violation("S-fields", f"{what}: the render job finished without a result but the status carries "
+                                    f"{k_out}={out.get(k_out)!r} (some other job's?)")
+            if out.get("suggested_filename"):
+                raise Violation("S-fields", f"{what}: the render job finished without a result but the status carries "
+                                f"suggested_filename={out.get('suggested_filename')!r}")
         if out.get("content_type") != nw.content_type:
             raise Violation("S-fields", f"{what}: content_type {out.get('content_type')!r} is not the writer's {nw.content_type!r}")
         cd = out.get("content_disposition")
